@@ -70,3 +70,14 @@ package main
 //@ func cmd:export-solidity
 //@   property C15
 //@   assert@before:ReadSystemFromFile arg0 == cli.flagStr(context, "keys-file")
+
+// C14 / C15 — start: validate the mode, load the system, run, and after the interrupt request stop then await it
+//@ func cmd:start
+//@   property C14 C15 C19
+//@   let mode = cli.flagStr(context, "mode")
+//@   ensures result == nil ==> (mode == "insertion" || mode == "deletion")
+//@   assert@before:ReadSystemFromFile arg0 == cli.flagStr(context, "keys-file")
+//@   assert@before:Run arg0.Mode == mode && origin(arg1, "ReadSystemFromFile.0")
+//@   assert@before:RequestStop origin(deref(recv), "Run")
+//@   assert@return result == nil && called("Run") ==> called("RequestStop") && called("AwaitStop")
+//@   assert@return result == nil && called("Run") ==> trace == trace.ev(trace.ev(trace.ev(old(trace), "recv", sigint), "close", instance.stop), "recv", instance.closed)
